@@ -104,7 +104,8 @@ def run(ctx):
                        for it in its2)
             extra = vals - fullv
             if extra:
-                failures.append((q, "forbidden", "result not in the unrestricted result set: " + sorted(extra)[0]))
+                # the unrestricted exploration lacks this result
+                failures.append((q, "missing", "result not in the unrestricted result set: " + sorted(extra)[0]))
             if len(its2) > len(its):
                 failures.append((q, "forbidden", f"{len(its2)} iterations with controls, {len(its)} without"))
             if len(ctx.cov["samples"]) < 3 and len(its2) < len(its):
@@ -146,6 +147,15 @@ def run(ctx):
         elif n is not None and len(its) != n:
             failures.append((q, "forbidden", f"expected {n} iterations before the permutation limit, saw {len(its)}"))
     unlisted = ctx.attribute(failures, differing)
+    # listed findings: a result found with controls that the unrestricted run lacks
+    for k in ctx.known:
+        if k.get("kind") == "controls-not-subset":
+            w, b = k["witness"], k["base"]
+            rb = lvlib.run_impl([w, b], max_iters=cap)
+            val = lambda its: set(" ".join(sorted(re.findall(r"=(v:[^ ]+|ok:[^ ]+|err:[^ ]+|empty)", lvlib.outcome_str(it)))) for it in its)
+            sw, sb = val(lvlib.iterations(rb[w])[0]), val(lvlib.iterations(rb[b])[0])
+            if sw - sb:
+                ctx.known_finding(k["id"], "(a run with exploration controls finds a result the unrestricted run does not) " + k["what"])
     if (dis or dis2) and not unlisted:
         for d in (dis + dis2)[:3]:
             ctx.violation("correspondence", {"disagreement": d, "rests_on_it": ctx.theorems()}, found_input=False,
